@@ -302,6 +302,34 @@ func genMatcherCase(t *testing.T, r *hx.RNG, c drvCfg, weights map[string]int) m
 				}
 				meta["ttl"], meta["from"] = fmt.Sprint(ttl), from.String()
 				return pkt, meta
+			case "own-synack":
+				// TCP variants: a SYN-ACK on the run's OWN 4-tuple arriving mid-run with numbers of its own —
+				// a stale duplicate of an earlier connection's handshake, a retransmission, or a forgery.  For
+				// the SACK variant it is not a selective ACK at all and must change nothing (in particular
+				// not the sequence base the later replies are decoded against); for TCP SYN it is a
+				// destination answer only if it acknowledges the last probe.
+				fl := c.flow()
+				if fl.V6 || (c.kind() != "sack" && c.kind() != "tcp") {
+					return rr.Bytes(20), map[string]string{"stream": "noise"}
+				}
+				seq, ack := uint32(rr.U64()), uint32(rr.U64())
+				switch rr.Intn(4) {
+				case 0:
+					ack = fl.ISN + 1 // exactly the real handshake's acknowledgement
+				case 1:
+					ack = fl.ISN + uint32(rr.Range(2, 40))
+				}
+				var opts []byte
+				if rr.Bool() {
+					opts = append(opts, 4, 2) // SACK permitted
+				}
+				if rr.Bool() {
+					opts = append(opts, 8, 10)
+					opts = append(opts, rr.Bytes(8)...)
+				}
+				meta["form"], meta["from"] = "synack/own-tuple", fl.Target.String()
+				return ip4Packet(fl.Target, fl.Local, 6, uint16(rr.Intn(65536)), 57, 0, 0x4000, nil,
+					tcpSegment(fl.Target, fl.Local, fl.TPort, fl.LPort, seq, ack, 0x12, opts, nil)), meta
 			case "own-probe":
 				ttl, ok := pickSent()
 				if !ok || probeOf(ttl) == nil {
